@@ -57,6 +57,13 @@ def gen(tier, rng):
         if 1 <= kk <= 300:
             for kd in P.NONDEC:
                 base.append((P.line("sync", "1", None, None, 10 ** 7, True, P.steady_clock(0, kk + 4), [kd] * (kk + 1) + ["success"]), "source-literal/script-length"))
+    for last in P.NONDEC:
+        for pre in ([], ["pending"], ["fail", "slow"]):
+            t0 = 1700000000 * P.NS
+            sc = pre + [last]
+            clock = [t0] + [t0 + (j + 1) * P.NS for j in range(len(sc))] + [t0 + 11 * P.NS, t0 + 12 * P.NS]
+            for tmo, ex in ((None, 10), (10 * P.NS, 1000)):
+                base.append((P.line("sync", "1", None, tmo, ex, True, clock, sc + ["success"]), "deadline-right-after-" + last))
     # the poll loop
     for s in P.scripts(3 if tier == "quick" else 4):
         for term in ("success", "denied", "malformed200"):
